@@ -272,7 +272,11 @@ func (i *Interp) visitInstr(fr *frame, instr ssa.Instruction) continuation {
 	case *ssa.Send:
 		i.send(fr.get(instr.Chan).(*chanV), fr.get(instr.X))
 	case *ssa.MakeChan:
-		fr.env[instr] = &chanV{cap: int(asInt(i, fr.get(instr.Size)))}
+		ch := &chanV{cap: int(asInt(i, fr.get(instr.Size)))}
+		if st, ok := instr.Type().Underlying().(*types.Chan).Elem().Underlying().(*types.Struct); ok && st.NumFields() == 0 {
+			ch.zeroSize = true
+		}
+		fr.env[instr] = ch
 	case *ssa.Alloc:
 		var addr *value
 		if instr.Heap {
@@ -394,7 +398,7 @@ func (i *Interp) prepareCall(fr *frame, call *ssa.CallCommon) (fn value, args []
 			return i.ctxMethod(c, call.Method.Name()), nil
 		}
 		if recv.t == errType {
-			st := recv.v.(structure)
+			st := errFields(recv)
 			switch call.Method.Name() {
 			case "Error":
 				return &nativeFn{"Error", func(*Interp, *frame, []value) value { return st[0] }}, nil
